@@ -75,6 +75,11 @@ var checks = map[string]checkSpec{
 		Quick:     30 * time.Second, Thorough: 5 * time.Minute, Level: "exploration",
 		Rule: "Range, RoundRobin and RackAffinity group balancers called directly with generated groups (1-12 members, 1-4 topics, 0-40 partitions, partial subscriptions, subscriptions to topics without partitions, racks on members and partition leaders, shuffled member and partition listings; half the groups small: <=4 members, <=6 partitions, <=2 topics). The iteration order of every Go map the balancers range over is drawn from the simulator's maporder stream (build overlay), so a failing order is found by the seeded search and replays. Oracle: exactly-one-owner who subscribes, nothing else assigned, per-topic loads within one, order independence and run/stride shape for Range/RoundRobin, per-rack locality bound for RackAffinity; a panic is a violation. The monitor in the cgroup and group scenarios checks the same rules on every assignment a group leader distributes through SyncGroup.",
 	},
+	"C16": {
+		Scenarios: []scnSpec{{Name: "codecs", Share: 1}},
+		Quick:     40 * time.Second, Thorough: 10 * time.Minute, Level: "exploration",
+		Rule: "1-4 goroutines share one codec value (gzip at two levels, snappy framed/unframed/faster/best, lz4, zstd at two levels) and each runs a generated history of streams through the pooled readers and writers: clean round trips with generated Write partitions and Read buffer sizes biased to the 32 KiB / 64 KiB boundaries, the ReadFrom / WriteTo fast paths, streams written by reference encoders (stdlib gzip incl. multi-member, golang/snappy raw blocks, eapache xerial, hand-framed multi-block xerial, pierrec lz4 and klauspost zstd with other options), sinks that fail permanently or once at a generated byte, sources that are truncated or fail at a generated byte (also returning data and error together), streams abandoned mid-way with and without Close. The scheduler switches goroutines inside the simulated Read/Write calls so pooled objects migrate between goroutines in seed-decided order; pools are emptied before each run so that one run is one self-contained history. Oracle: payload equality, acceptance by the reference decoder of the format used directly, prefix-only output and reported errors under faults.",
+	},
 	"C07": {
 		Scenarios: []scnSpec{{Name: "writer", Params: "focus=order", Share: 1}},
 		Quick:     35 * time.Second, Thorough: 10 * time.Minute, Level: "exploration",
